@@ -12,6 +12,9 @@ CLAIMED = {
  "C04": ("gate preconditions at every call site of the granting operations + provenance/inertness postconditions (ghost verdict of the RADIUS oracle), VCs from the typed Go AST discharged by z3/cvc5",
          "Deductive proof for the PPPoE server.go frame handlers: SetState(IPCP/Established), client-address assignment and IPCP handling are reachable only with session.Authenticated; Authenticated becomes true only from the RADIUS verdict; frames/PADT from a MAC that does not own the session leave it unchanged. Three genuine defects found by these obligations were repaired (fix: commits).",
          "Trusted: VC generator, solvers, trusted contract for radius.Client.Authenticate (oracle) and rawSocket.send, monitor model for Session.mu/SessionManager.mu; CHAP/Authenticator path not under contract.", "DESIGN.md §5 C04"),
+ "C11": ("lock invariant over ghost acknowledgement flags (state=Opened => acked peer's latest request and peer acked ours) on every method of the LCP automaton + per-event postconditions, sendPacket callback observed through a functype contract; VCs discharged by z3/cvc5",
+         "Deductive proof for the LCP option-negotiation automaton (lcp.go): the opened state implies mutual acknowledgement of the most recent requests, every renegotiation/terminate/down/close event leaves Opened, replies echo the request identifier, and the restart counter bounds retransmissions. One genuine RFC 1661 deviation (TO+ in Ack-Rcvd) was found by the invariant and repaired. IPCP/IPv6CP and option-list contents are undecided.",
+         "Trusted: VC generator, solvers, callbacks sendPacket/onStateChange assumed not to modify the automaton, monitor model for mu/timerMu, timer firing order.", "DESIGN.md §5 C11"),
  "C05": ("count/exhaustion lock invariants and postconditions on allocator.IPAllocator (ghost cardinalities), VCs discharged by z3/cvc5",
          "Deductive proof that allocatedCount equals the cardinality of both maps after every operation, that exhaustion is reported only when every index is taken, and that Stats returns those figures; one configuration-dependent defect (pools of 2^63+ prefixes) is a recorded known finding.",
          "Same trusted base as C01; cardinalities are ghost counters updated at map insert/delete.", "DESIGN.md §5 C05"),
